@@ -1026,7 +1026,7 @@ def latin(nn):
 
 
 def _bld_gen(rng, big):
-    nn = rng.choice([1, 2, 3, 3, 4] if big else [1, 2, 3, 3])
+    nn = rng.choice([1, 2, 3, 3, 4])
     cl = [[rng.choice([0, 0, 0, 1, 2, 3]) if rng.random() < 0.5 else 0 for _ in range(nn)] for _ in range(4)]
     return {"n": nn, "cl": cl}
 
